@@ -1,20 +1,28 @@
 """C19 - the tab-delimited text table is a faithful table of the results.
 
-spec:   spec/Table.tla (actions Put, Solve, SolveFailed, Render; invariants C19_Header, C19_RowCount,
-        C19_CellIsFormattedValue).  Names are sequences of code points, Less() is the lexicographic
-        order, so "the rest ascending by code point" is a TLA+ formula.
-TLC:    exhaustive check of the bounded instance MC_Table (name pools mixing priority names, upper and
-        lower case, underscore-leading names; ragged lengths 0..3; every subset of the pool with one
-        value per series; solves from there); every maximal behaviour is emitted.
+spec:   spec/Table.tla (actions Put, Store, Delete, List, Solve, SolveFailed, Render - freely interleaved;
+        invariants C19_Header, C19_RowCount, C19_CellIsFormattedValue).  Names are sequences of code
+        points, Less() is the lexicographic order, so "the rest ascending by code point" is a TLA+ formula.
+TLC:    exhaustive check of two bounded instances of MC_Table; every maximal behaviour is emitted.
+        "grid": name pools mixing priority names, upper and lower case, underscore-leading names; ragged
+        lengths 0..3; every subset of the pool with one value per series; solves from there; one render
+        per applicable format class at the end.
+        "edit": few names, EVERY interleaving of mutations (AppendValue, item assignment creating /
+        replacing by a longer or shorter list, del, solve) with observations (GetSeriesList(),
+        GenerateCSVtext()): a holder that has already been listed or rendered is changed and rendered
+        again; each table is judged against what the holder stores at that moment.
 replay: (a) each behaviour is executed on a REAL TimeSeriesHolder (Put = holder[name] = [] /
-        AppendValue with seeded random ints and floats of any magnitude and sign; Solve = a real
-        EquationSolver over the stored names; Render = GenerateCSVtext(<format string>)); the text is
-        parsed back and for every cell the driver computes "parses back to value i of the series
-        named by the column within the precision of the format" as a Boolean.
+        AppendValue, Store = holder[name] = [...], Delete = del holder[name], List = GetSeriesList(),
+        with seeded random ints and floats of any magnitude and sign; Solve = a real EquationSolver over
+        the stored names, whose TimeSeries is the holder from then on; Render =
+        GenerateCSVtext(<format string>)); the text is parsed back and for every cell the driver
+        computes "parses back to value i of the series named by the column within the precision of the
+        format" as a Boolean.
         (b) real models (gl_book SIM / SIMEX1 / PC through Model.main(), small EquationSolver blocks
         with different MaxTime, one set on the solver object) are solved and the table of
         EquationSolver.GenerateCSVtext() - and the one Model.main() wrote to the 'timeseries' log -
-        is recorded the same way.
+        is recorded the same way; then derived series are stored into the results
+        (solver.TimeSeries[name] = [...]), the table is rendered again, one is deleted, rendered again.
 trace:  TLC (Table_Trace) recomputes from the OBSERVED name set what the header must be, from the
         observed lengths what the row count must be (and horizon+1 after a successful solve) and
         demands every cell Boolean; one total verdict per trace.
@@ -27,7 +35,11 @@ Readings (the weaker one where the statement leaves a choice):
   * precision of a format: '%.5g' relative 1e-4, '%.12g' relative 1e-11, '%e' relative 1e-6,
     '%f' absolute 1e-6, '%d' exact (only rendered on int-only series).  Values are compared as
     floats (an int beyond 2**53 is compared through float(int), which is what '%g' prints).
-  * a failed solve only has to give min-length rows; horizon+1 is demanded after a successful one.
+  * a failed solve only has to give min-length rows; horizon+1 is demanded after a successful one,
+    and only while the solver's holder is as the solver left it (after a user stored / deleted a
+    series, "one row per period up to the shortest series" is what is demanded).
+  * GetSeriesList() is the mechanism, not the table: a wrong list alone is reported as DRIFT; the
+    property is judged on the text of the tables.
 Names containing a tab or a newline are outside the explored space (no name of a model can).
 """
 import json
@@ -192,57 +204,98 @@ def solver_text(names, holder, h, rng):
     return '\n'.join(lines)
 
 
+def hist_of(beh):
+    """Behaviours are histories of calls; replay files written before the 'edit' instance existed
+    hold {puts, solve, renders}."""
+    if 'hist' in beh:
+        return beh['hist']
+    hist = [dict(op='put', name=p['name'], len=p['len'], kind=p['kind'], fmt='', h=0) for p in beh['puts']]
+    if beh['solve']['is']:
+        hist.append(dict(op='solve', name=[], len=0, kind='num', fmt='', h=beh['solve']['horizon']))
+    hist += [dict(op='render', name=[], len=0, kind='int', fmt=f, h=0) for f in beh['renders']]
+    return hist
+
+
+def make_values(rng, kind, n, big):
+    out = []
+    for i in range(n):
+        if kind == 'int':
+            out.append(rand_int(rng, big=big))
+        elif i == 0 or rng.random() < 0.75:
+            out.append(rand_float(rng))         # the first value makes the series observably "num"
+        else:
+            out.append(rand_int(rng, big=False))
+    return out
+
+
 def execute(beh, seed):
     """Run one behaviour on the real code; returns the list of trace events."""
     from sfc_models.utils import TimeSeriesHolder
     from sfc_models.equation_solver import EquationSolver
     rng = random.Random('%d|%s' % (seed, core.canonical(beh)))
-    int_only_render = 'd' in beh['renders']
+    hist = hist_of(beh)
+    big = any(o['op'] == 'render' and o['fmt'] == 'd' for o in hist)
     events = []
     holder = TimeSeriesHolder('k')
     table_of = holder
-    for p in beh['puts']:
-        name = name_of(p['name'])
-        ev = {'ev': 'Put', 'name': p['name'], 'len': p['len'], 'kind': p['kind']}
-        try:
-            have = len(holder[name]) if name in holder else None
-            if have is None and p['len'] == 0:
-                holder[name] = []
-            n_new = p['len'] - (have or 0)
-            for i in range(n_new):
-                if p['kind'] == 'int':
-                    v = rand_int(rng, big=int_only_render)
-                elif i == 0 or rng.random() < 0.75:
-                    v = rand_float(rng)         # the first value makes the series observably "num"
-                else:
-                    v = rand_int(rng, big=False)
-                holder.AppendValue(name, v)
-            ev['ok'] = True
-        except Exception:
-            ev['ok'] = False
-        ev.update(snapshot(holder))
-        events.append(ev)
-    if beh['solve']['is']:
-        h = beh['solve']['horizon']
-        ev = {'ev': 'Solve', 'h': h, 'vs': [], 'must': True}
-        solver = None
-        try:
-            text = solver_text(list(holder.keys()), holder, h, rng)
-            solver = EquationSolver(text)
-            solver.SolveEquation()
-            ev.update(ok=True, h=int(solver.Parser.MaxTime))
-            holder = solver.TimeSeries
-            table_of = solver
-        except Exception:
-            ev['ok'] = False
+    for o in hist:
+        op = o['op']
+        name = name_of(o['name'])
+        if op == 'put':
+            ev = {'ev': 'Put', 'name': o['name'], 'len': o['len'], 'kind': o['kind']}
+            try:
+                have = len(holder[name]) if name in holder else None
+                if have is None and o['len'] == 0:
+                    holder[name] = []
+                for v in make_values(rng, o['kind'], o['len'] - (have or 0), big):
+                    holder.AppendValue(name, v)
+                ev['ok'] = True
+            except Exception:
+                ev['ok'] = False
+            ev.update(snapshot(holder))
+        elif op == 'store':
+            ev = {'ev': 'Store', 'name': o['name'], 'len': o['len'], 'kind': o['kind']}
+            try:
+                holder[name] = make_values(rng, o['kind'], o['len'], big)
+                ev['ok'] = True
+            except Exception:
+                ev['ok'] = False
+            ev.update(snapshot(holder))
+        elif op == 'del':
+            ev = {'ev': 'Delete', 'name': o['name']}
+            try:
+                del holder[name]
+                ev['ok'] = True
+            except Exception:
+                ev['ok'] = False
+            ev.update(snapshot(holder))
+        elif op == 'list':
+            ev = {'ev': 'List'}
+            ev.update(snapshot(holder))
+            try:
+                ev.update(ok=True, list=[codes(n) for n in holder.GetSeriesList()])
+            except Exception:
+                ev.update(ok=False, list=[])
+        elif op == 'solve':
+            ev = {'ev': 'Solve', 'h': o['h'], 'vs': [], 'must': True}
+            solver = None
+            try:
+                text = solver_text(list(holder.keys()), holder, o['h'], rng)
+                solver = EquationSolver(text)
+                solver.SolveEquation()
+                ev.update(ok=True, h=int(solver.Parser.MaxTime))
+            except Exception:
+                ev['ok'] = False
             if solver is not None:
-                holder = solver.TimeSeries
+                holder = solver.TimeSeries      # from now on the solver's holder is the holder
                 table_of = solver
-        ev.update(snapshot(holder))
+            ev.update(snapshot(holder))
+        elif op == 'render':
+            cls = o['fmt']
+            ev = render_event(cls, 'call', holder, lambda: table_of.GenerateCSVtext(FORMATS[cls]))
+        else:
+            raise core.MachineryError('unknown op %r in a behaviour' % (op,))
         events.append(ev)
-    for cls in beh['renders']:
-        events.append(render_event(cls, 'call', holder,
-                                   lambda: table_of.GenerateCSVtext(FORMATS[cls])))
     return events
 
 
@@ -327,6 +380,29 @@ def execute_model(spec, wd):
         events.append(render_event(cls, 'call', holder, lambda: solver.GenerateCSVtext(FORMATS[cls])))
     if logged is not None:
         events.append(render_event('g5', 'timeseries-log', holder, lambda: logged))
+    # a user works on the results: derived series stored into the holder, rendered again, one removed
+    n = min([len(v) for v in holder.values()] or [0])
+    first = next((v for v in holder.values() if len(v) >= n and n > 0), [0.0] * n)
+    for name, vals in (('AA_derived', [2.0 * float(x) + 0.125 for x in first[:n]]),
+                       ('zz_derived', [float(i) / 3.0 for i in range(n)])):
+        ev = {'ev': 'Store', 'name': codes(name), 'len': n, 'kind': 'num'}
+        try:
+            holder[name] = vals
+            ev['ok'] = True
+        except Exception:
+            ev['ok'] = False
+        ev.update(snapshot(holder))
+        events.append(ev)
+    events.append(render_event('g12', 'call-after-store', holder, lambda: solver.GenerateCSVtext(FORMATS['g12'])))
+    ev = {'ev': 'Delete', 'name': codes('AA_derived')}
+    try:
+        del holder['AA_derived']
+        ev['ok'] = True
+    except Exception:
+        ev['ok'] = False
+    ev.update(snapshot(holder))
+    events.append(ev)
+    events.append(render_event('g5', 'call-after-delete', holder, lambda: solver.GenerateCSVtext()))
     return events
 
 
@@ -343,6 +419,8 @@ def signature(clause, events):
     for ev in events:
         if ev['ev'] == 'Solve':
             solved = ev['h'] if ev['ok'] else None
+        if ev['ev'] in ('Put', 'Store', 'Delete'):
+            solved = None                     # the holder is no longer as the solver left it
         if ev['ev'] != 'Render':
             continue
         names = [name_of(c) for c in ev['names']]
@@ -380,7 +458,7 @@ def brief(events):
     out = []
     for ev in events:
         d = {k: v for k, v in ev.items() if k not in ('cells', 'vs')}
-        for k in ('names', 'header'):
+        for k in ('names', 'header', 'list'):
             if k in d:
                 d[k] = [name_of(c) for c in d[k]]
         if 'name' in d:
@@ -413,35 +491,54 @@ def judge(rep, cases):
 
 def run(rep):
     quick = rep.tier == 'quick'
-    cfg = 'MC_Table_quick.cfg' if quick else 'MC_Table_thorough.cfg'
-    rep.rule = ('behaviours = all maximal histories of the bounded Table instance emitted by TLC (Puts of pool '
-                'names in pool order with ragged lengths 0..3 for up to MaxRagged series, every subset of the pool '
-                'with one value per series, optionally a Solve with a horizon of the instance, then one Render per '
-                'applicable format class), each replayed on a real TimeSeriesHolder / EquationSolver with seeded '
-                'random values; plus the listed real models (gl_book SIM/SIMEX1/PC via Model.main(), EquationSolver '
-                'blocks). distinct = distinct case JSON; non-trivial = some rendered table has >= 2 stored series '
-                'and >= 1 data row')
+    cfgs = ['MC_Table_quick.cfg', 'MC_Table_quick2.cfg'] if quick else \
+        ['MC_Table_thorough.cfg', 'MC_Table_thorough2.cfg']
+    rep.rule = ('behaviours = all maximal histories of two bounded Table instances emitted by TLC. grid: Puts of '
+                'pool names in pool order with ragged lengths 0..3 for up to MaxRagged series, every subset of the '
+                'pool with one value per series, optionally a Solve with a horizon of the instance, then one Render '
+                'per applicable format class. edit: every interleaving of <= MaxMut mutations (AppendValue, item '
+                'assignment creating/replacing, del, Solve) over a small pool with exactly MaxObs observations '
+                '(GetSeriesList, GenerateCSVtext), the last a render. Each is replayed on a real TimeSeriesHolder / '
+                'EquationSolver with seeded random values; plus the listed real models (gl_book SIM/SIMEX1/PC via '
+                'Model.main(), EquationSolver blocks), rendered, extended by derived series, rendered again, one '
+                'series deleted, rendered again. distinct = distinct case JSON; non-trivial = some rendered table '
+                'has >= 2 stored series and >= 1 data row')
     rep.exhaustive = False
     rep.extra['behaviour_space_exhaustive'] = True
-    rep.assumptions = ['the space of names, lengths, horizons and format classes of the instance is enumerated '
-                       'completely; the stored VALUES are seeded random samples (VERIF_SEED), not exhaustive',
+    rep.assumptions = ['the space of names, lengths, horizons, format classes and call interleavings of the '
+                       'instances is enumerated completely; the stored VALUES are seeded random samples '
+                       '(VERIF_SEED), not exhaustive',
                        'precision of a format: %.5g rel 1e-4, %.12g rel 1e-11, %e rel 1e-6, %f abs 1e-6, %d exact',
-                       'alphabetical = ascending by code point; horizon = EquationSolver.Parser.MaxTime after the solve',
-                       'TLC 1.8 / tla2tools; float()/int() of Python parse the cells']
-    res = core.tlc('MC_Table', cfg, workers=1 if quick else 8, tag='c19')
-    if res.violated:
-        raise core.MachineryError('spec invariant %s violated in %s' % (res.violated, cfg))
-    rep.add_tlc(res, 'exhaustive ' + cfg)
-    behs = core.json_of_printed(res, 'BEH')
-    if not behs:
-        raise core.MachineryError('TLC emitted no behaviours for ' + cfg)
-    if len({core.canonical(b) for b in behs}) != len(behs):
-        raise core.MachineryError('TLC emitted a behaviour twice')
+                       'alphabetical = ascending by code point; horizon = EquationSolver.Parser.MaxTime after the '
+                       'solve; horizon+1 rows demanded while the solved holder is untouched',
+                       'TLC 1.8 / tla2tools; float()/int()/Fraction of Python parse the cells']
+    behs = []
+    seen = set()
+    for cfg in cfgs:
+        res = core.tlc('MC_Table', cfg, workers=1 if quick else 8, tag='c19')
+        if res.violated:
+            raise core.MachineryError('spec invariant %s violated in %s' % (res.violated, cfg))
+        rep.add_tlc(res, 'exhaustive ' + cfg)
+        got = core.json_of_printed(res, 'BEH')
+        if not got:
+            raise core.MachineryError('TLC emitted no behaviours for ' + cfg)
+        for b in got:
+            k = core.canonical(b)
+            if k in seen:
+                raise core.MachineryError('TLC emitted a behaviour twice (%s)' % cfg)
+            seen.add(k)
+            behs.append(b)
+        rep.extra['behaviours_' + cfg.replace('MC_Table_', '').replace('.cfg', '')] = len(got)
+    del seen
     cases = []
     for b in behs:
         cases.append(({'kind': 'holder', 'behaviour': b, 'seed': rep.seed}, execute(b, rep.seed)))
     rep.extra['behaviours_replayed'] = len(cases)
-    rep.extra['solves_replayed'] = sum(1 for b in behs if b['solve']['is'])
+    rep.extra['solves_replayed'] = sum(1 for b in behs for o in b['hist'] if o['op'] == 'solve')
+    rep.extra['renders_after_a_change_of_an_observed_holder'] = sum(
+        1 for b in behs if any(o['op'] in ('list', 'render') and
+                               any(m['op'] in ('put', 'store', 'del') for m in b['hist'][i + 1:])
+                               for i, o in enumerate(b['hist'])))
     wd = core.workdir('c19_models')
     try:
         rng = random.Random('%d|models' % rep.seed)
